@@ -158,9 +158,14 @@ def regenerate(repo, outdir):
     for n in need:
         if n not in consts:
             raise RuntimeError(f"statement constant {n} not found in sqlite/mod.rs")
+    m1 = re.search(r"let mut pub_info = \[0u8; (\d+)\];", read(repo, "askar-crypto/src/kdf/ecdh_1pu.rs"))
+    if not m1:
+        raise RuntimeError("ecdh_1pu.rs: pub_info buffer declaration not found")
     lines = ["/- GENERATED by tools/extract.py from /repo on every run — do not edit. -/",
              "namespace Askar.Generated", "",
-             f"def pageSize : Nat := {page}", ""]
+             f"def pageSize : Nat := {page}",
+             f"/-- size of the `pub_info` stack buffer of Ecdh1PU::derive_key_bytes -/",
+             f"def ecdh1puPubInfoCap : Nat := {m1.group(1)}", ""]
     for n in need:
         text = re.sub(r"\s+", " ", consts[n]).strip()
         lines.append(f"def {n[0].lower() + re.sub(r'_(.)', lambda m: m.group(1).upper(), n[1:].lower())} : String := {lean_str(text)}")
